@@ -43,7 +43,9 @@ def run_tlc(module, cfg_text, workers=16, env=None, timeout=1800, extra=(), heap
                 f.write(text)
         gct = max(2, min(16, workers))
         cmd = ['java', '-Xmx' + heap, '-XX:+UseParallelGC', '-XX:ParallelGCThreads=%d' % gct,
-               '-XX:CICompilerCount=2', '-DTLA-Library=' + work, '-cp', _classpath(), 'tlc2.TLC',
+               '-XX:CICompilerCount=2', '-DTLA-Library=' + work,
+               '-Djava.io.tmpdir=' + work,     # (TLC leaves an empty tlc-<n> directory per run there)
+               '-cp', _classpath(), 'tlc2.TLC',
                '-workers', str(workers), '-metadir', os.path.join(work, 'meta'),
                '-noGenerateSpecTE', '-config', cfg]
         if simulate:
